@@ -5,6 +5,7 @@ duplicates and never exceeds the replication limit; every listed prover has a re
 that refers back to that file.  Preserved by every message and by the reward block.
 -/
 import Canine.Proofs.StorageE
+import Canine.Proofs.QueryStorage
 import Canine.Generated.KeyFacts
 namespace Canine.Storage
 
@@ -372,5 +373,51 @@ def C17_expectedKeys : List (String × String) := [
   ("x/storage/types/keys.go:KeyPrefix", "caccc65e7667915d")]
 
 theorem C17_store_keys_as_modelled : Generated.keyFns_storage = C17_expectedKeys := by decide
+
+/-! ### The listings as clients read them (gRPC query server, `query.Paginate`) -/
+
+open Canine.Query Canine.Storage.Query in
+/-- **Every file is found by either route, through the query server.**  On every state satisfying
+the index invariant (all reachable states: `C17_along_histories`), whatever page size a client
+uses, following `NextKey` through `AllFiles`, through `AllFilesByOwner` for the file's owner and
+through `AllFilesByMerkle` for its merkle root each returns the file, with the contents the
+by-content index holds.  (`hraw…`: the raw keys of a store are distinct — physically so.) -/
+theorem C17_every_file_listed_by_each_route (s : State) (hinv : IndexInv s) (k : FKey) (f : File)
+    (limit fuel : Nat) (hk : AMap.get s.files k = some f)
+    (hraw1 : (s.files.map (fun kv => fileKeyStr kv.1)).Nodup)
+    (hraw2 : (s.files2.map (fun kv => fileKey2Str kv.1)).Nodup)
+    (hf1 : s.files.length + 1 ≤ fuel) (hf2 : s.files2.length + 1 ≤ fuel) :
+    (∃ l, walk (primaryEntries s) limit false fuel none [] = some l ∧ f ∈ l) ∧
+    (∃ l, walk (underPrefix (secondaryEntries s) k.2.1) limit false fuel none [] = some l ∧ f ∈ l) ∧
+    (∃ l, walk (underPrefix (primaryEntries s) k.1) limit false fuel none [] = some l ∧ f ∈ l) := by
+  have hm1 : (k, f) ∈ s.files := AMap.mem_of_get hk
+  have hm2 : (k, f) ∈ s.files2 := AMap.mem_of_get (by rw [← hinv.same k]; exact hk)
+  refine ⟨?_, ?_, ?_⟩
+  · obtain ⟨l, hl, hmem⟩ := walk_allFiles s limit fuel hraw1 hf1
+    exact ⟨l, hl, (hmem f).mpr (List.mem_map.mpr ⟨(k, f), hm1, rfl⟩)⟩
+  · obtain ⟨l, hl, hin, _⟩ := walk_allFilesByOwner s k.2.1 limit fuel hraw2 hf2
+    exact ⟨l, hl, hin k f hm2 rfl⟩
+  · obtain ⟨l, hl, hin, _⟩ := walk_allFilesByMerkle s k.1 limit fuel hraw1 hf1
+    exact ⟨l, hl, hin k f hm1 rfl⟩
+
+open Canine.Query Canine.Storage.Query in
+/-- … and the listings contain nothing else: what `AllFiles` returns page by page is exactly the
+by-content index, so (by `hinv.same`) exactly the by-owner index too. -/
+theorem C17_allFiles_lists_exactly_the_index (s : State) (limit fuel : Nat)
+    (hraw : (s.files.map (fun kv => fileKeyStr kv.1)).Nodup) (hf : s.files.length + 1 ≤ fuel) :
+    ∃ l, walk (primaryEntries s) limit false fuel none [] = some l ∧ ∀ f, f ∈ l ↔ f ∈ s.files.map (·.2) :=
+  walk_allFiles s limit fuel hraw hf
+
+open Canine.Query Canine.Storage.Query in
+/-- every listed prover's record is retrievable through `ProofsByAddress` of that prover -/
+theorem C17_listed_prover_record_listed (s : State) (hinv : IndexInv s) (k : FKey) (f : File) (pk : PKey)
+    (limit fuel : Nat) (hk : AMap.get s.files k = some f) (hpk : pk ∈ f.proofs)
+    (hraw : (s.proofs.map (fun kv => proofKeyStr kv.1)).Nodup) (hf : s.proofs.length + 1 ≤ fuel) :
+    ∃ l p, walk (underPrefix (proofEntries s) pk.1) limit false fuel none [] = some l ∧ p ∈ l ∧
+      AMap.get s.proofs pk = some p := by
+  obtain ⟨_, _, _, h4⟩ := hinv.ok k f hk
+  obtain ⟨_, p, hp, _⟩ := h4 pk hpk
+  obtain ⟨l, hl, hin⟩ := walk_proofsByAddress s pk.1 limit fuel hraw hf
+  exact ⟨l, p, hl, hin pk p (AMap.mem_of_get hp) rfl, hp⟩
 
 end Canine.Storage
